@@ -120,9 +120,10 @@ def check_pair(i: int, j: int) -> bool:
 def groups(tier):
     gs = []
     n2 = len(e2e.tables(2))
-    combos = [("plain", "plain"), ("plain", "symmetry"), ("plain", "inferral"), ("eqpath", "plain"), ("eqpath", "inferral")]
+    combos = [("plain", "plain"), ("plain", "symmetry"), ("plain", "inferral"), ("eqpath", "plain"), ("eqpath", "inferral"),
+              ("eqpath", "drop"), ("eqpath", "drop-two")]
     if tier == "thorough":
-        combos += [("eqpath", "symmetry"), ("plain", "inferral-symmetry"), ("eqpath", "inferral-symmetry")]
+        combos += [("eqpath", "symmetry"), ("plain", "inferral-symmetry"), ("eqpath", "inferral-symmetry"), ("plain", "drop")]
     for finder, opt in combos:
         step = 8
         for lo in range(0, n2, step):
